@@ -22,7 +22,8 @@
 From Coq Require Import List Arith Bool ZArith.
 From VBase Require Import FieldOps ZpOps.
 From VModel Require Import Soundness.
-From VProofs Require Import ZpLaws SoundnessPoly SoundnessEnforce SoundnessBoundary SoundnessVerifier SoundnessCount SoundnessDeep SoundnessExamples.
+From VProofs Require Import ZpLaws SoundnessPoly SoundnessEnforce SoundnessBoundary SoundnessVerifier SoundnessCount SoundnessDeep SoundnessLagrange SoundnessExamples.
+From VModel Require EnforceLagrange.
 Import ListNotations.
 Local Open Scope nat_scope.
 
@@ -170,6 +171,7 @@ Theorem C02_verify_accept_implies : forall {F} (O : FOps F), FLaws O ->
   verify_model O eval_trans eval_aux_trans E A C P = Accept ->
   e_modulus E = p_modulus P /\
   (exists o, In o (e_acceptable E) /\ zlist_eqb (p_options P) o = true) /\
+  (air_lagrange A <> None -> e_gkr_ok E = true) /\
   evaluate_constraints O eval_trans eval_aux_trans A C P = ood_reduce O (air_n A) (c_z C) 0 (p_ood_evals P) /\
   e_fri_commit_ok E = true /\ e_pow_ok E = true /\ e_trace_auth E = true /\ e_cons_auth E = true /\
   e_fri E (deep_evaluations O A C P) = true.
@@ -182,6 +184,7 @@ Theorem C02_verify_accept_iff : forall {F} (O : FOps F)
   (E : Env) (A : AirDesc) (C : Coins) (P : ProofObj),
   verify_model O eval_trans eval_aux_trans E A C P = Accept <->
   (Z.eqb (e_modulus E) (p_modulus P) && existsb (zlist_eqb (p_options P)) (e_acceptable E) &&
+   match air_lagrange A with Some _ => e_gkr_ok E | None => true end &&
    ood_equation_b O eval_trans eval_aux_trans A C P && e_fri_commit_ok E && e_pow_ok E && e_trace_auth E && e_cons_auth E &&
    e_fri E (deep_evaluations O A C P) = true).
 Proof. exact (@verify_accept_iff). Qed.
@@ -192,7 +195,9 @@ Print Assumptions C02_verify_accept_iff.
 Theorem C02_deep_evaluations_nth : forall {F} (O : FOps F) (A : AirDesc) (C : Coins) (P : ProofObj) q rt rc x,
   nth_error (p_q_trace P) q = Some rt -> nth_error (p_q_cons P) q = Some rc -> nth_error (c_xs C) q = Some x ->
   nth_error (deep_evaluations O A C P) q =
-  Some (fadd O (deep_trace_at O C P (fmul O (c_z C) (air_g A)) rt (aux_row_at P q) x) (deep_cons_at O C P rc x)).
+  Some (fadd O (fadd O (deep_trace_at O C P (fmul O (c_z C) (air_g A)) rt (cut_aux_row A (aux_row_at P q)) x)
+                       (deep_lagrange_at O A C P (fmul O (c_z C) (air_g A)) (aux_row_at P q) x))
+               (deep_cons_at O C P rc x)).
 Proof. exact (@deep_evaluations_nth). Qed.
 Print Assumptions C02_deep_evaluations_nth.
 
@@ -328,7 +333,8 @@ Print Assumptions C02_deep_binding_aliased_refuted.
 
 (* acceptance read on polynomials: for a frame made of evaluations (main transition constraints on it give N_j(z), the
    H_i(z) are evaluations of the committed columns) the accepted equation is
-   H(z) = ((sum_j alpha_j N_j)(z) + sum_j alpha_(nt+j) aux_j) / D(z) + boundary terms (main and auxiliary groups),
+   H(z) = ((sum_j alpha_j N_j)(z) + sum_j alpha_(nt+j) aux_j) / D(z) + boundary terms (main and auxiliary groups)
+          + the Lagrange kernel part (all log2 n transition terms and the boundary term: C02_eval_lagrange_part_explicit),
    D the vanishing polynomial of the enforced steps *)
 Theorem C02_accept_gives_polynomial_relation : forall {F} (O : FOps F), FLaws O ->
   forall (eval_trans : list F -> list F -> list F -> list F)
@@ -340,7 +346,8 @@ Theorem C02_accept_gives_polynomial_relation : forall {F} (O : FOps F), FLaws O 
   eval_trans (p_ood_cur P) (p_ood_next P) (periodic_at O A (c_z C)) = map (fun p => peval O p (c_z C)) Ns ->
   p_ood_evals P = map (fun h => peval O h (c_z C)) Hs ->
   peval O (combine_cols O (air_n A) 0 Hs) (c_z C) =
-  fadd O (fdiv O (fadd O (peval O (lincomb O (firstn (air_nt_main A) (cc_trans C)) Ns) (c_z C))
+  fadd O (fadd O
+         (fdiv O (fadd O (peval O (lincomb O (firstn (air_nt_main A) (cc_trans C)) Ns) (c_z C))
                          match p_aux P with
                          | None => fzero O
                          | Some ax => dot O (skipn (air_nt_main A) (cc_trans C))
@@ -348,9 +355,55 @@ Theorem C02_accept_gives_polynomial_relation : forall {F} (O : FOps F), FLaws O 
                                                         (periodic_at O A (c_z C)) (c_aux_rands C))
                          end)
                  (peval O (trans_divisor_poly O (air_g A) (air_n A) (air_k A)) (c_z C)))
-         (eval_boundary_part O A C P).
+         (eval_boundary_part O A C P))
+         (eval_lagrange_part O A C P).
 Proof. exact (@accept_gives_polynomial_relation). Qed.
 Print Assumptions C02_accept_gives_polynomial_relation.
+
+(* ------------------------------------------------------------------ Lagrange kernel column (round 5)
+   the Lagrange part of the out-of-domain equation (evaluator.rs section 3, computed by C16's model of air/src/air/lagrange/*
+   with the divisors LagrangeKernelTransitionConstraints::new builds) in closed form: for a frame c of v + 1 values, v random
+   elements r and v coefficients it is the sum of ALL v transition terms
+       coef_idx * (r_(v-1-idx) * c_0 - (1 - r_(v-1-idx)) * c_(v-idx)) / (z^(2^idx) - 1),   idx = 0 .. v-1,
+   plus the boundary term (c_0 - prod (1 - r_i)) * coef_b / (z - 1).  With C02_accept_gives_polynomial_relation: acceptance
+   implies the out-of-domain equation INCLUDING these log2(n) + 1 terms.  (Frames / random elements / coefficients of other
+   lengths make the Rust code panic; they are outside the verdict enum.) *)
+Theorem C02_eval_lagrange_part_explicit : forall {F} (O : FOps F), FLaws O ->
+  forall (A : AirDesc) (C : Coins) (P : ProofObj) (fr : list F) (lc : LagCoins) (v : nat),
+  p_lagrange P = Some fr -> c_lagrange C = Some lc ->
+  length fr = S v -> length (lg_rands lc) = v -> length (lg_cc_trans lc) = v -> v < 64 ->
+  eval_lagrange_part O A C P =
+  fadd O (fsum O (map (lag_term O v (lg_cc_trans lc) (lg_rands lc) fr (c_z C)) (seq 0 v)))
+         (lag_boundary_term O (lg_rands lc) fr (lg_cc_bnd lc) (c_z C)).
+Proof. exact (@eval_lagrange_part_explicit). Qed.
+Print Assumptions C02_eval_lagrange_part_explicit.
+
+Theorem C02_lag_term_def : forall {F} (O : FOps F) v (coefs rr c : list F) x idx,
+  lag_term O v coefs rr c x idx =
+  fmul O (fmul O (nth idx coefs (fzero O))
+                 (fsub O (fmul O (nth (v - 1 - idx) rr (fzero O)) (nth 0 c (fzero O)))
+                         (fmul O (fsub O (fone O) (nth (v - 1 - idx) rr (fzero O))) (nth (v - idx) c (fzero O)))))
+         (finv O (fsub O (fpow O x (2 ^ idx)) (fone O))) /\
+  forall lb, lag_boundary_term O rr c lb x =
+  fmul O (fmul O (fsub O (nth 0 c (fzero O)) (EnforceLagrange.lag_assertion_value O rr)) lb) (finv O (fsub O x (fone O))).
+Proof. exact (fun F O v coefs rr c x idx => conj eq_refl (fun lb => eq_refl)). Qed.
+Print Assumptions C02_lag_term_def.
+
+(* REFUTED for the seeded variant C02-r4airc2 in the model (LagrangeKernelTransitionConstraints::new builds one divisor fewer, the
+   zip of evaluate_and_combine drops the last constraint): a frame changed ONLY in the entry c(g z), which only the last
+   constraint k = v reads (numerator 1 and the boundary numerator are unchanged, numerator 2 changes), gets the same
+   out-of-domain value as the original frame — the variant's OOD equation still holds — while the real one changes
+   (and verify_model answers RejOod: C02_verify_model_lagrange_nonvacuous).  Instance: 64-bit field, n = 4, v = 2. *)
+Theorem C02_dropped_last_lagrange_constraint_refuted :
+  (EnforceLagrange.lag_raw F64_ops frame_l' (lg_rands lagc) 1 = EnforceLagrange.lag_raw F64_ops frame_l (lg_rands lagc) 1 /\
+   EnforceLagrange.lag_raw F64_ops frame_l' (lg_rands lagc) 2 <> EnforceLagrange.lag_raw F64_ops frame_l (lg_rands lagc) 2 /\
+   EnforceLagrange.lag_boundary_numerator F64_ops (lg_rands lagc) frame_l' (lg_cc_bnd lagc) =
+   EnforceLagrange.lag_boundary_numerator F64_ops (lg_rands lagc) frame_l (lg_cc_bnd lagc)) /\
+  evaluate_constraints_gen F64_ops lt_e la_e (lag_new_dropped F64_ops) air_l coins_l proof_l' =
+  evaluate_constraints_gen F64_ops lt_e la_e (lag_new_dropped F64_ops) air_l coins_l proof_l /\
+  evaluate_constraints F64_ops lt_e la_e air_l coins_l proof_l' <> evaluate_constraints F64_ops lt_e la_e air_l coins_l proof_l.
+Proof. exact (conj frames_differ_in_last_constraint_only dropped_last_constraint_refuted). Qed.
+Print Assumptions C02_dropped_last_lagrange_constraint_refuted.
 
 (* ------------------------------------------------------------------ out-of-domain check: counting *)
 Theorem C02_ood_reduce_is_evaluation : forall {F} (O : FOps F), FLaws O -> forall n z (hs : list (list F)) i,
@@ -457,7 +510,7 @@ Proof. exact ali_instance. Qed.
 Example C02_verify_model_nonvacuous :
   verify_model F64_ops ctr_e aux_e envx airx coinsx proofx = Accept /\
   verify_model F64_ops ctr_e aux_e envx airx coinsx proofy = RejOod /\
-  verify_model F64_ops ctr_e aux_e (mkEnv 7 [[1%Z; 2%Z]] true true true true (fun _ => true)) airx coinsx proofx = Accept.
+  verify_model F64_ops ctr_e aux_e (mkEnv 7 [[1%Z; 2%Z]] true true true true true (fun _ => true)) airx coinsx proofx = Accept.
 Proof. exact (conj (proj1 verify_accept_instance) (conj (proj1 (proj2 verify_accept_instance)) (proj1 verify_accept_instance))). Qed.
 (* with an auxiliary segment: accepted / an auxiliary out-of-domain value changed is rejected; the auxiliary terms enter *)
 Example C02_verify_model_aux_nonvacuous :
@@ -488,3 +541,13 @@ Example C02_real_map_separates_aliased_witness :
                 (Some [fsub F64_ops (fone F64_ops) (fone F64_ops)]) (e6 10) =
   deep_trace_at_gen F64_ops aliased_index_aux coins_d proof_d (e6 7) [fzero F64_ops] (Some [fone F64_ops]) (e6 10).
 Proof. exact (conj real_map_separates aliased_map_does_not). Qed.
+(* a run with a Lagrange kernel column: accepted; the GKR verdict false: RejGkr; the frame entry read by the last Lagrange
+   constraint changed: RejOod *)
+Example C02_verify_model_lagrange_nonvacuous :
+  verify_model F64_ops lt_e la_e (env_l true) air_l coins_l proof_l = Accept /\
+  verify_model F64_ops lt_e la_e (env_l false) air_l coins_l proof_l = RejGkr /\
+  verify_model F64_ops lt_e la_e (env_l true) air_l coins_l proof_l' = RejOod /\
+  length (deep_evaluations F64_ops air_l coins_l proof_l) = 2.
+Proof. exact verify_lagrange_instance. Qed.
+Example C02_lagrange_part_nonzero : eval_lagrange_part F64_ops air_l coins_l proof_l <> fzero F64_ops.
+Proof. exact lagrange_part_nonzero. Qed.
